@@ -60,6 +60,11 @@ type numEntry[T any] struct {
 	Unit string `( ";" @"unit" )?`
 }
 
+// numTyped: the number is captured through an empty literal with a type constraint (any token of that type)
+type numTyped[T any] struct {
+	V T `@"":Tok`
+}
+
 type numScalar[T any] struct {
 	V T `@Tok`
 }
@@ -169,6 +174,7 @@ func mkNumKind[T any](name, class string, bits int) numKind {
 		pQuoSl  *participle.Parser[numQuotedSlice[T]]
 		pParts  *participle.Parser[numParts[T]]
 		pList   *participle.Parser[numList[T]]
+		pTyped  *participle.Parser[numTyped[T]]
 	)
 	opts := []participle.Option{participle.Lexer(c17Lex), participle.Elide("WS")}
 	return numKind{name: name, class: class, bits: bits, run: func(shape, input string) (res numRes) {
@@ -300,6 +306,15 @@ func mkNumKind[T any](name, class string, bits int) numKind {
 					pParts = participle.MustBuild[numParts[T]](participle.Lexer(c17SignLex), participle.Elide("WS"))
 				}
 				ast, err := pParts.ParseString("f", input)
+				res.err = err
+				if err == nil {
+					res.vals = fieldVals(reflect.ValueOf(ast).Elem().Field(0))
+				}
+			case "typedlit":
+				if pTyped == nil {
+					pTyped = participle.MustBuild[numTyped[T]](opts...)
+				}
+				ast, err := pTyped.ParseString("f", input)
 				res.err = err
 				if err == nil {
 					res.vals = fieldVals(reflect.ValueOf(ast).Elem().Field(0))
@@ -756,7 +771,7 @@ func genNumText(t *rapid.T) (string, bool) {
 func TestC17(t *testing.T) {
 	runProp(t, "C17", c17Rule, func(t *rapid.T, r *vstat.Run) {
 		k := numKinds[rapid.IntRange(0, len(numKinds)-1).Draw(t, "kind")]
-		c := &c17Case{Kind: k.name, Shape: rapid.SampledFrom([]string{"scalar", "scalar", "ptr", "slice", "slicecap", "signed", "signedptr", "nested", "twice", "padded", "outer", "after", "negated", "quoted", "quotedslice", "parts", "listed"}).Draw(t, "shape")}
+		c := &c17Case{Kind: k.name, Shape: rapid.SampledFrom([]string{"scalar", "scalar", "ptr", "slice", "slicecap", "signed", "signedptr", "nested", "twice", "padded", "outer", "after", "negated", "quoted", "quotedslice", "parts", "listed", "typedlit"}).Draw(t, "shape")}
 		nt := false
 		switch c.Shape {
 		case "slice", "slicecap":
